@@ -10,7 +10,7 @@
 (* "nearest declaring ancestor" definition and that name resolution is a   *)
 (* function, and prints it as a JSON forest for the harness.               *)
 (***************************************************************************)
-EXTENDS XotNsL2, TLC, Json
+EXTENDS XotRender, TLC, Json
 
 CONSTANT Dump
 
@@ -70,5 +70,7 @@ L2Ser == L2SerRefines(F.n)
 L2Unres == L2UnresolvedRefines(F.n)
 L2CmpInv == L2CmpRefines(F.n)
 L2DedupInv == L2DedupRefines(F.n)
+\* the round trip inside the specification (XotRender)
+RT == \A x \in ElemsAndDocs(F.n) : RoundTripOk(F.n, x)
 DumpState == Dump /\ F # Blank => PrintT("STATE " \o ToJson(F))
 =============================================================================
